@@ -49,6 +49,9 @@ CLAIMED = {
  "C02": ("rapid differential testing against an independent implementation of the common.md layout: model encode -> library parse -> every accessor compared with the model value; library constructors -> bytes compared with the model encoding and strictly decoded by the model",
          "Both directions for identity (all supported key pairs, NULL/KEY certificates, excess payload), Lease/Lease2, LeaseSet, LeaseSet2, MetaLeaseSet (library-documented layout and common.md layout), EncryptedLeaseSet, OfflineSignature, RouterAddress, RouterInfo on ~24k generated values per quick run. A change applied symmetrically to reader and writer is caught because the model shares no code with the library.",
          "internal/model (written from common.md) is the reference. Known finding F-META-SPEC (MetaLeaseSet layout differs from common.md) is excluded by signature and counted; domain restrictions (EncryptedLeaseSet expires >= 1, inner >= 61 bytes; peer_size 0) follow the library's documented minima.", "DESIGN.md 5/C02"),
+ "C08": ("rapid stateful property-based testing: generated overwrite histories on the input buffer and on copy-documented accessor results, invariant = reflection-based deep observation of the value unchanged; capacity sentinel against appends into the caller's slice",
+         "For every listed structure (22 parser entry points) ~12k accepted inputs per quick run, each with a 1..4 step history of {invert, zero, overwrite range, scribble on slices returned by copy-documented accessors}; after every step the serialisation and the pointer-following dump of every exported argument-free method (two levels deep) must equal the first observation.",
+         "Observation is by reflection through exported methods and printable fields; the options/properties mappings of LeaseSet2/MetaLeaseSet are excluded as the property says; time-dependent predicates (IsExpired, Validate) are not part of the observation. SortEntriesByCost is documented to copy but returns structs, not byte slices; it is observed, not scribbled on.", "DESIGN.md 5/C08"),
 }
 checks = []
 for pid in ids:
